@@ -707,7 +707,12 @@ func (e *Env) hasType(v Value, t types.Type) *Term {
 	if v.K != VU {
 		return e.fresh("hastype", SBool)
 	}
-	return App("hasType$"+typeString(t), SBool, v.T)
+	name := "hasType$" + typeString(t)
+	if e.w.typeOfPred == nil {
+		e.w.typeOfPred = map[string]types.Type{}
+	}
+	e.w.typeOfPred[name] = types.Unalias(t)
+	return App(name, SBool, v.T)
 }
 
 func typeString(t types.Type) string {
